@@ -42,7 +42,12 @@ Proof. eapply allcalls_impl; [|apply rr_update_hosts]. intros s c H. destruct c;
 Lemma nf_ensure cs : allcalls (fun _ c => nofile c) (ensure_current_master cs).
 Proof. unfold ensure_current_master, dcs_set_. pac0; nf. Qed.
 Lemma nf_get_master cs : allcalls (fun _ c => nofile c) (get_current_master cs).
-Proof. unfold get_current_master. cbn [allcalls]. split; [nf|]. intros r. destruct r as [er| | | | | | | | | | |v| | |]; try apply nf_ensure. destruct v; try apply nf_ensure. exact I. Qed.
+Proof.
+  unfold get_current_master. cbn [allcalls]. split; [nf|]. intros r.
+  destruct r as [er| | | | | | | | | | |v| | |]; try exact I; try apply nf_ensure.
+  - destruct er; first [exact I | apply nf_ensure].
+  - destruct v; first [exact I | apply nf_ensure].
+Qed.
 Lemma nf_lock s : allcalls (fun _ c => nofile c) (lock_acquire s).
 Proof. unfold lock_acquire. cbn [allcalls]. split; [nf|]. intros r. destruct r; exact I. Qed.
 Lemma nf_set_maint s mt : allcalls (fun _ c => nofile c) (set_maintenance s mt).
@@ -547,4 +552,169 @@ Proof.
       destruct (gates_tail_context _ _ _ _ _ _ R1 L) as [(gm & Hm & Rm) (gs & Hs & Rs)].
       split; [exists gm|exists gs]; (split; [apply in_or_app; left; assumption|assumption]).
   - destruct (gates_file_only_with_gates_open _ _ _ _ _ R1 e Hin Hf) as (Gm & Gs & _). split; assumption.
+Qed.
+
+(* ================================================================ C09: the manager iteration under acknowledged full maintenance
+   A process that runs stateManager (e.g. it was restarted) while full maintenance is acknowledged only READS:
+   it refreshes the registry, looks at the servers and the health records, reads the master key, the active
+   list and the maintenance record - and goes to the paused state.  (Hypothesis forced by the proof: the master
+   key is readable; with an unreadable master key getCurrentMaster re-learns and WRITES the master before the
+   maintenance record is looked at - see DESIGN.md, C09.) *)
+Definition readb (c : call) : bool :=
+  match c with
+  | Sql _ st => stmt_reads st
+  | DcsGet _ | DcsChildren _ | LockAcquire | DcsConnected | Now | FileExists _ | Peek _ => true
+  | _ => false
+  end.
+Definition only_reads (tr : trace) : Prop := Forall (fun e => readb (ev_call e) = true) tr.
+Lemma or_of {A} (p : prog A) tr o : allcalls (fun _ c => readb c = true) p -> runs p tr o -> only_reads tr.
+Proof. intros H R. exact (allcalls_sound _ p H tr o R). Qed.
+Lemma or_app a b : only_reads a -> only_reads b -> only_reads (a ++ b).
+Proof. intros; apply Forall_app; split; assumption. Qed.
+
+Lemma rd_cluster_state s hosts : allcalls (fun _ c => readb c = true) (cluster_state_from_db s hosts).
+Proof. apply (c_cluster_state readb); first [intros h st H; exact H | intros; reflexivity]. Qed.
+Lemma rd_cluster_state_dcs s hosts : allcalls (fun _ c => readb c = true) (cluster_state_from_dcs s hosts).
+Proof.
+  unfold cluster_state_from_dcs. cbn [allcalls]. split; [|intros rs; destruct (existsb _ rs); exact I].
+  induction hosts as [|[h c] r IH]; [exact I|]. cbn [map]. split; [|exact IH].
+  unfold health_of. cbn [allcalls]. split; [reflexivity|]. intros x. destruct x as [er| | | | | | | | | | | | | |]; try exact I; destruct er; exact I.
+Qed.
+Lemma rd_update_hosts m : allcalls (fun _ c => readb c = true) (update_hosts_info m).
+Proof. eapply allcalls_impl; [|apply rr_update_hosts]. intros s c H. destruct c; try destruct H; try reflexivity; destruct p; try destruct H; reflexivity. Qed.
+
+Lemma um_update_hosts m : allcalls (fun _ c => c <> DcsGet PMaintenance) (update_hosts_info m).
+Proof.
+  unfold update_hosts_info, children_or_empty. cbn [bind allcalls]. split; [discriminate|]. intros r.
+  assert (CC : forall l, allcalls (fun _ c => c <> DcsGet PMaintenance) (cascade_configs l)).
+  { induction l as [|h t IH]; [exact I|]. cbn [cascade_configs allcalls]. split; [discriminate|]. intros x. destruct x; try exact I. destruct v; try exact I. exact IH. }
+  destruct r as [er| | | | | | | | | | | |l| |]; cbn [bind]; try exact I.
+  - destruct er; cbn [bind]; try exact I. cbn [allcalls]. split; [discriminate|]. intros r2.
+    destruct r2 as [er2| | | | | | | | | | | |l2| |]; cbn [bind]; try exact I.
+    + destruct er2; cbn [bind]; try exact I.
+    + apply allcalls_bind; [apply CC|]. intros [|]; exact I.
+  - cbn [allcalls]. split; [discriminate|]. intros r2.
+    destruct r2 as [er2| | | | | | | | | | | |l2| |]; cbn [bind]; try exact I.
+    + destruct er2; cbn [bind]; try exact I.
+    + apply allcalls_bind; [apply CC|]. intros [|]; exact I.
+Qed.
+
+Lemma um_cluster_state_dcs s hosts : allcalls (fun _ c => c <> DcsGet PMaintenance) (cluster_state_from_dcs s hosts).
+Proof.
+  unfold cluster_state_from_dcs. cbn [allcalls]. split; [|intros rs; destruct (existsb _ rs); exact I].
+  induction hosts as [|[h c] r IH]; [exact I|]. cbn [map]. split; [|exact IH].
+  unfold health_of. cbn [allcalls]. split; [discriminate|]. intros x. destruct x as [er| | | | | | | | | | | | | |]; try exact I; destruct er; exact I.
+Qed.
+
+Theorem manager_frozen_when_acknowledged cfg env m tr o :
+  runs (manager_gates cfg env m) tr o ->
+  (forall e, In e tr -> ev_call e = DcsGet PMaster -> (exists h, ev_resp e = RVal (VHost h)) \/ (exists er, ev_resp e = RErr er /\ er <> ENotFound /\ er <> EMalformed)) ->
+  (forall e, In e tr -> ev_call e = DcsGet PMaintenance ->
+     exists mt, ev_resp e = RVal (VMaint mt) /\ mt_light mt = false /\ mt_paused mt = true) ->
+  only_reads tr /\ (forall c m', o <> Done (GTail c, m')) /\
+  (forall e, In e tr -> ev_call e = DcsGet PMaintenance -> exists m', o = Done (GNext NxMaintenance, m')).
+Proof.
+  unfold manager_gates. intros H Hmaster Hmaint.
+  (* DcsConnected *)
+  cbn [bind runs] in H. destruct tr as [|e0 tr0]; [destruct H|]. destruct H as (_ & Ec0 & H).
+  assert (R0 : readb (ev_call e0) = true) by (rewrite Ec0; reflexivity).
+  assert (NM0 : ev_call e0 <> DcsGet PMaintenance) by (rewrite Ec0; discriminate).
+  assert (WRAP : forall t, (only_reads t /\ (forall c m', o <> Done (GTail c, m')) /\
+                   (forall e, In e t -> ev_call e = DcsGet PMaintenance -> exists m', o = Done (GNext NxMaintenance, m'))) ->
+                 (only_reads (e0 :: t) /\ (forall c m', o <> Done (GTail c, m')) /\
+                   (forall e, In e (e0 :: t) -> ev_call e = DcsGet PMaintenance -> exists m', o = Done (GNext NxMaintenance, m')))).
+  { intros t (A & B & C). split; [constructor; assumption|]. split; [exact B|]. intros e [<-|Hi] He; [contradiction|exact (C e Hi He)]. }
+  apply WRAP. clear WRAP.
+  assert (Hmaster0 : forall e, In e tr0 -> ev_call e = DcsGet PMaster -> (exists h, ev_resp e = RVal (VHost h)) \/ (exists er, ev_resp e = RErr er /\ er <> ENotFound /\ er <> EMalformed)) by (intros e Hi; apply Hmaster; right; exact Hi).
+  assert (Hmaint0 : forall e, In e tr0 -> ev_call e = DcsGet PMaintenance -> exists mt, ev_resp e = RVal (VMaint mt) /\ mt_light mt = false /\ mt_paused mt = true) by (intros e Hi; apply Hmaint; right; exact Hi).
+  clear Hmaster Hmaint R0 NM0 Ec0.
+  (* a generic step: a read-only first part that does not read the maintenance record *)
+  assert (STEP : forall (A : Type) (p : prog A) (f : A -> prog (gate_res * mgr_mem)) t,
+     allcalls (fun _ c => readb c = true /\ c <> DcsGet PMaintenance) p ->
+     runs (bind p f) t o ->
+     (forall e, In e t -> ev_call e = DcsGet PMaster -> (exists h, ev_resp e = RVal (VHost h)) \/ (exists er, ev_resp e = RErr er /\ er <> ENotFound /\ er <> EMalformed)) ->
+     (forall e, In e t -> ev_call e = DcsGet PMaintenance -> exists mt, ev_resp e = RVal (VMaint mt) /\ mt_light mt = false /\ mt_paused mt = true) ->
+     (forall a t2, runs (f a) t2 o ->
+        (forall e, In e t2 -> ev_call e = DcsGet PMaster -> (exists h, ev_resp e = RVal (VHost h)) \/ (exists er, ev_resp e = RErr er /\ er <> ENotFound /\ er <> EMalformed)) ->
+        (forall e, In e t2 -> ev_call e = DcsGet PMaintenance -> exists mt, ev_resp e = RVal (VMaint mt) /\ mt_light mt = false /\ mt_paused mt = true) ->
+        only_reads t2 /\ (forall c m', o <> Done (GTail c, m')) /\
+        (forall e, In e t2 -> ev_call e = DcsGet PMaintenance -> exists m', o = Done (GNext NxMaintenance, m'))) ->
+     only_reads t /\ (forall c m', o <> Done (GTail c, m')) /\
+     (forall e, In e t -> ev_call e = DcsGet PMaintenance -> exists m', o = Done (GNext NxMaintenance, m'))).
+  { intros A p f t Hq R HM HMt K.
+    destruct (runs_bind_inv _ _ _ _ R) as [(t1 & t2 & a & R1 & R2 & ->)|(s & R1 & ->)].
+    - pose proof (allcalls_sound _ p Hq t1 _ R1) as F.
+      destruct (K a t2 R2 (fun e Hi => HM e (in_or_app _ _ _ (or_intror Hi))) (fun e Hi => HMt e (in_or_app _ _ _ (or_intror Hi)))) as (A1 & B1 & C1).
+      split; [apply or_app; [eapply Forall_impl; [|exact F]; intros e [X _]; exact X|exact A1]|]. split; [exact B1|].
+      intros e Hi He. apply in_app_or in Hi. destruct Hi as [Hi|Hi]; [|exact (C1 e Hi He)].
+      exfalso. rewrite Forall_forall in F. destruct (F e Hi) as [_ X]. exact (X He).
+    - pose proof (allcalls_sound _ p Hq t _ R1) as F.
+      split; [eapply Forall_impl; [|exact F]; intros e [X _]; exact X|]. split; [discriminate|].
+      intros e Hi He. exfalso. rewrite Forall_forall in F. destruct (F e Hi) as [_ X]. exact (X He). }
+  assert (NOM : forall (A : Type) (p : prog A), allcalls (fun _ c => readb c = true) p ->
+                 allcalls (fun _ c => c <> DcsGet PMaintenance) p -> allcalls (fun _ c => readb c = true /\ c <> DcsGet PMaintenance) p).
+  { intros A p. revert A p. fix F 2. intros A p. destruct p as [a|s|s c k|s bs k]; cbn [allcalls]; intros H1 H2; auto.
+    - destruct H1 as [a1 k1]. destruct H2 as [a2 k2]. split; [split; assumption|]. intros r. apply F; [apply k1|apply k2].
+    - destruct H1 as [b1 k1]. destruct H2 as [b2 k2]. split; [|intros rs; apply F; [apply k1|apply k2]].
+      clear k1 k2. induction bs as [|[h b] r IH]; [exact I|]. destruct b1 as [x1 y1]. destruct b2 as [x2 y2]. split; [apply F; assumption|apply IH; assumption]. }
+  assert (ENDS : forall mm, only_reads [] /\ (forall c m', Done (A:=gate_res * mgr_mem) (GNext NxLost, mm) <> Done (GTail c, m'))) by (intros; split; [constructor|discriminate]).
+  destruct (match ev_resp e0 with RBool b => b | _ => false end); cbn [negb] in H.
+  2:{ cbn in H. destruct H as [-> ->]. split; [constructor|]. split; [discriminate|]. intros e []. }
+  (* lock *)
+  eapply (STEP _ _ _ tr0); [| exact H | exact Hmaster0 | exact Hmaint0 |].
+  { apply NOM; [unfold lock_acquire; cbn [allcalls]; split; [reflexivity|intros r; destruct r; exact I]|].
+    unfold lock_acquire; cbn [allcalls]; split; [discriminate|intros r; destruct r; exact I]. }
+  intros l t1 R1 HM1 HMt1. cbv beta in R1. destruct (negb l).
+  { cbn in R1. destruct R1 as [-> ->]. split; [constructor|]. split; [discriminate|]. intros e []. }
+  eapply (STEP _ _ _ t1); [| exact R1 | exact HM1 | exact HMt1 |].
+  { apply NOM; [apply rd_update_hosts|apply um_update_hosts]. }
+  intros u t2 R2 HM2 HMt2. cbv beta in R2.
+  eapply (STEP _ _ _ t2); [| exact R2 | exact HM2 | exact HMt2 |].
+  { apply NOM; [apply rd_cluster_state|].
+    eapply allcalls_impl; [|apply (c_cluster_state (fun c => match c with DcsGet PMaintenance => false | _ => true end)); intros; reflexivity].
+    intros s c Hc E. subst c. discriminate Hc. }
+  intros cs t3 R3 HM3 HMt3. cbv beta in R3.
+  eapply (STEP _ _ _ t3); [| exact R3 | exact HM3 | exact HMt3 |].
+  { apply NOM; [apply rd_cluster_state_dcs|apply um_cluster_state_dcs]. }
+  intros ocsd t4 R4 HM4 HMt4. cbv beta in R4.
+  destruct ocsd as [csd|]; [|cbn in R4; destruct R4 as [-> ->]; split; [constructor|]; split; [discriminate|]; intros e []].
+  (* manager_decide: the master key is readable *)
+  unfold manager_decide, get_current_master in R4. cbn [bind runs] in R4.
+  destruct t4 as [|eM t5]; [destruct R4|]. destruct R4 as (_ & EcM & R4).
+  assert (RM0 : readb (ev_call eM) = true) by (rewrite EcM; reflexivity).
+  destruct (HM4 eM (or_introl eq_refl) EcM) as [(hm & ErM)|(er & ErM & N1 & N2)].
+  2:{ (* the read failed: the iteration ends, nothing was written *)
+      rewrite ErM in R4. destruct er; try contradiction; cbn in R4; destruct R4 as [-> ->];
+        (split; [constructor; [exact RM0|constructor]|]; split; [discriminate|];
+         intros e [<-|[]] He; rewrite EcM in He; discriminate He). }
+  rewrite ErM in R4. cbn [bind] in R4.
+  assert (RM : readb (ev_call eM) = true) by (rewrite EcM; reflexivity).
+  assert (NMM : ev_call eM <> DcsGet PMaintenance) by (rewrite EcM; discriminate).
+  assert (WRAP : forall t, (only_reads t /\ (forall c m', o <> Done (GTail c, m')) /\
+                   (forall e, In e t -> ev_call e = DcsGet PMaintenance -> exists m', o = Done (GNext NxMaintenance, m'))) ->
+                 (only_reads (eM :: t) /\ (forall c m', o <> Done (GTail c, m')) /\
+                   (forall e, In e (eM :: t) -> ev_call e = DcsGet PMaintenance -> exists m', o = Done (GNext NxMaintenance, m')))).
+  { intros t (A & B & C). split; [constructor; assumption|]. split; [exact B|]. intros e [<-|Hi] He; [contradiction|exact (C e Hi He)]. }
+  apply WRAP. clear WRAP.
+  destruct (negb (mem_host hm (map fst (all_hosts (snd u))))).
+  { cbn in R4. destruct R4 as [-> ->]. split; [constructor|]. split; [discriminate|]. intros e []. }
+  (* the active list *)
+  cbn [runs] in R4. destruct t5 as [|eA t6]; [destruct R4|]. destruct R4 as (_ & EcA & R4).
+  assert (RA : readb (ev_call eA) = true) by (rewrite EcA; reflexivity).
+  assert (NMA : ev_call eA <> DcsGet PMaintenance) by (rewrite EcA; discriminate).
+  assert (WRAP : forall t, (only_reads t /\ (forall c m', o <> Done (GTail c, m')) /\
+                   (forall e, In e t -> ev_call e = DcsGet PMaintenance -> exists m', o = Done (GNext NxMaintenance, m'))) ->
+                 (only_reads (eA :: t) /\ (forall c m', o <> Done (GTail c, m')) /\
+                   (forall e, In e (eA :: t) -> ev_call e = DcsGet PMaintenance -> exists m', o = Done (GNext NxMaintenance, m')))).
+  { intros t (A & B & C). split; [constructor; assumption|]. split; [exact B|]. intros e [<-|Hi] He; [contradiction|exact (C e Hi He)]. }
+  apply WRAP. clear WRAP.
+  destruct (match ev_resp eA with RVal (VHosts l) => Some l | RErr ENotFound | RErr EMalformed | RVal _ => Some [] | _ => None end) as [active|].
+  2:{ cbn in R4. destruct R4 as [-> ->]. split; [constructor|]. split; [discriminate|]. intros e []. }
+  (* the maintenance record: full, acknowledged *)
+  cbn [runs] in R4. destruct t6 as [|eT t7]; [destruct R4|]. destruct R4 as (_ & EcT & R4).
+  assert (InT : In eT (eM :: eA :: eT :: t7)) by (right; right; left; reflexivity).
+  destruct (HMt4 eT InT EcT) as (mt & ErT & Hlight & Hpaused). rewrite ErT in R4. cbn [bind] in R4.
+  unfold handle_maintenance in R4. rewrite Hlight, Hpaused in R4. cbn in R4. destruct R4 as [-> ->].
+  split; [constructor; [rewrite EcT; reflexivity|constructor]|]. split; [discriminate|].
+  intros e [<-|[]] _. eexists. reflexivity.
 Qed.
